@@ -50,7 +50,7 @@ def import_habutax():
 # ----------------------------------------------------------------------------------
 # exceptions
 # ----------------------------------------------------------------------------------
-class HarnessError(Exception):
+class HarnessError(BaseException):
     """The harness (not habutax) is broken or a seam is missing: exit 2, never VIOLATION."""
 
 
